@@ -8,11 +8,11 @@ import (
 	"verifsim/tape"
 )
 
-// JSON generates valid JSON texts.  It never generates: duplicate keys in one
+// JSONDoc generates valid JSON texts.  It never generates: duplicate keys in one
 // object, lone surrogates, invalid UTF-8, numbers outside float64 range —
 // those are C02/C05 territory (input dimension), not what the simulated
 // properties are about.
-type JSON struct {
+type JSONDoc struct {
 	T *tape.Tape
 	// Keys, when non-nil, is the pool of object keys to prefer (struct targets).
 	keyN int
@@ -21,7 +21,7 @@ type JSON struct {
 var wsBytes = []byte{' ', '\n', '\t', '\r'}
 
 // WS appends n whitespace bytes.
-func (g *JSON) WS(b []byte, n int) []byte {
+func (g *JSONDoc) WS(b []byte, n int) []byte {
 	if n <= 0 {
 		return b
 	}
@@ -39,7 +39,7 @@ func (g *JSON) WS(b []byte, n int) []byte {
 	return b
 }
 
-func (g *JSON) smallWS(b []byte) []byte {
+func (g *JSONDoc) smallWS(b []byte) []byte {
 	switch g.T.Pick(6, 2, 1) {
 	case 1:
 		return append(b, ' ')
@@ -50,7 +50,7 @@ func (g *JSON) smallWS(b []byte) []byte {
 }
 
 // Number appends a JSON number.
-func (g *JSON) Number(b []byte) []byte {
+func (g *JSONDoc) Number(b []byte) []byte {
 	t := g.T
 	switch t.Pick(4, 3, 2, 2, 1) {
 	case 0: // small int
@@ -112,7 +112,7 @@ var runes = []string{"\u00e9", "\u00df", "\u20ac", "\u65e5", "\u672c", "\U0001F6
 var escapes = []string{`\"`, `\\`, `\/`, `\b`, `\f`, `\n`, `\r`, `\t`, `\u00e9`, `\u0041`, `\ud83d\ude00`, `\u2028`, `\u0000`, `\ufffd`, `\uD834\uDD1E`, `\u003c`}
 
 // StringBody appends about n bytes of string content (no quotes).
-func (g *JSON) StringBody(b []byte, n int) []byte {
+func (g *JSONDoc) StringBody(b []byte, n int) []byte {
 	t := g.T
 	style := t.Pick(5, 3, 2) // ascii, mixed, heavy
 	start := len(b)
@@ -142,7 +142,7 @@ func (g *JSON) StringBody(b []byte, n int) []byte {
 
 var strLens = []int{0, 1, 2, 3, 5, 7, 8, 9, 15, 16, 17, 23, 31, 32, 33, 63, 64, 65}
 
-func (g *JSON) String(b []byte) []byte {
+func (g *JSONDoc) String(b []byte) []byte {
 	n := strLens[g.T.Intn(len(strLens))]
 	if g.T.Chance(1, 6) {
 		n = g.T.Range(0, 200)
@@ -152,7 +152,7 @@ func (g *JSON) String(b []byte) []byte {
 	return append(b, '"')
 }
 
-func (g *JSON) Key(b []byte) []byte {
+func (g *JSONDoc) Key(b []byte) []byte {
 	g.keyN++
 	b = append(b, '"')
 	if g.T.Chance(1, 5) {
@@ -165,7 +165,7 @@ func (g *JSON) Key(b []byte) []byte {
 	return append(b, '"')
 }
 
-func (g *JSON) Literal(b []byte) []byte {
+func (g *JSONDoc) Literal(b []byte) []byte {
 	switch g.T.Intn(3) {
 	case 0:
 		return append(b, "true"...)
@@ -176,7 +176,7 @@ func (g *JSON) Literal(b []byte) []byte {
 }
 
 // Scalar appends a scalar.
-func (g *JSON) Scalar(b []byte) []byte {
+func (g *JSONDoc) Scalar(b []byte) []byte {
 	switch g.T.Pick(4, 3, 2) {
 	case 0:
 		return g.Number(b)
@@ -187,7 +187,7 @@ func (g *JSON) Scalar(b []byte) []byte {
 }
 
 // Value appends a value of roughly size bytes (size <= 0: a scalar).
-func (g *JSON) Value(b []byte, size, depth int) []byte {
+func (g *JSONDoc) Value(b []byte, size, depth int) []byte {
 	t := g.T
 	if size <= 12 || depth > 6 {
 		if size > 40 && t.Bool() {
